@@ -264,7 +264,7 @@ func (v *simView) Gen(rng *Rng, i int) string {
 		ci := 0
 		g.emit(fmt.Sprintf("c %d %s", ci, hx(g.requestGet(ci))))
 		askOnly := rng.Bool()
-		for hop := 0; hop < 20 && run.crashed == ""; hop++ {
+		for hop := 0; hop < 60 && run.crashed == ""; hop++ { // an ASK hop costs two answers (ASKING, then the command)
 			g.emit("T")
 			pb := pendingBackends()
 			if len(pb) == 0 {
